@@ -8,7 +8,7 @@ namespace Pdb.Conc.Pipe
 set_option maxHeartbeats 800000 in
 theorem g1_tickD {cfg : Cfg} {s s' : St} (hI : G1 s) (h : tickD cfg s = some s') : G1 s' := by
   have hI0 := hI
-  obtain ⟨a1, a2, a3, a4, a5, a6l, a6f, a6c, a6k, a7, a8, a9, a10⟩ := hI
+  obtain ⟨a1, a2, a3, a4, a5, a6l, a6f, a6c, a6k, a7, a8, a9⟩ := hI
   unfold tickD at h
   split at h
   · g1fin
@@ -18,8 +18,8 @@ theorem g1_tickD {cfg : Cfg} {s s' : St} (hI : G1 s) (h : tickD cfg s = some s')
     · cases h
       rename_i hp _
       have hs : s.shutdown = true := a2 (by rw [hp]; rfl)
-      have := g1_sdNotify cfg a1 a2 a6l a6f a6c a6k a7 a8 a9 a10 hs
-      obtain ⟨b1, b2, b3, b4, b5, b6l, b6f, b6c, b6k, b7, b8, b9, b10⟩ := this
+      have := g1_sdNotify cfg a1 a2 a6l a6f a6c a6k a7 a8 a9 hs
+      obtain ⟨b1, b2, b3, b4, b5, b6l, b6f, b6c, b6k, b7, b8, b9⟩ := this
       have hpd : (sdNotify cfg s).pd = s.pd := by unfold sdNotify lqNotify; split <;> rfl
       have hsd : (sdNotify cfg s).sdDone = true := by unfold sdNotify lqNotify; split <;> rfl
       have hsh : (sdNotify cfg s).shutdown = true := by unfold sdNotify lqNotify; split <;> exact hs
@@ -34,7 +34,7 @@ theorem g1_tickD {cfg : Cfg} {s s' : St} (hI : G1 s) (h : tickD cfg s = some s')
     subst hs
     have e := ctlEq_killLogsSeq he
     have := g1_ctlEq hI0 e
-    obtain ⟨b1, b2, b3, b4, b5, b6l, b6f, b6c, b6k, b7, b8, b9, b10⟩ := this
+    obtain ⟨b1, b2, b3, b4, b5, b6l, b6f, b6c, b6k, b7, b8, b9⟩ := this
     rename_i hp
     have hpd : s1.pd = .kill := by rw [e.pd, hp]
     constructor <;> dsimp only <;>
@@ -52,9 +52,8 @@ theorem pd_idle_of_busy {s : St} (a1 : A1 s.pd s.cms) {i : Nat} {c : Cm} (hc : s
 
 theorem g1_of_pd_idle {s s' : St} (hI : G1 s) (hp : s.pd = .idle) (e1 : s'.pd = s.pd)
     (e2 : s'.shutdown = s.shutdown) (e3 : s'.sdDone = s.sdDone) (e4 : s'.pl = s.pl) (e5 : s'.pf = s.pf)
-    (e6 : s'.pc = s.pc) (e7 : s'.pk = s.pk) (e8 : s'.bgErr = s.bgErr) (e9 : s'.moreReindex = s.moreReindex)
-    (e10 : s'.reidx = s.reidx) : G1 s' := by
-  obtain ⟨a1, a2, a3, a4, a5, a6l, a6f, a6c, a6k, a7, a8, a9, a10⟩ := hI
+    (e6 : s'.pc = s.pc) (e7 : s'.pk = s.pk) (e8 : s'.bgErr = s.bgErr) : G1 s' := by
+  obtain ⟨a1, a2, a3, a4, a5, a6l, a6f, a6c, a6k, a7, a8, a9⟩ := hI
   constructor
   · intro h; rw [e1, hp] at h; exact absurd rfl h
   · rw [e1, e2]; exact a2
@@ -68,18 +67,17 @@ theorem g1_of_pd_idle {s s' : St} (hI : G1 s) (hp : s.pd = .idle) (e1 : s'.pd = 
   · rw [e8, e2]; exact a7
   · rw [e1]; exact a8
   · rw [e1, e4, e5, e6, e7]; exact a9
-  · rw [e4, e9, e10]; exact a10
 
 theorem g1_commitFinish {s : St} (hI : G1 s) (hp : s.pd = .idle) (i b : Nat) : G1 (commitFinish s i b) := by
   unfold commitFinish
-  split <;> exact g1_of_pd_idle hI hp rfl rfl rfl rfl rfl rfl rfl rfl rfl rfl
+  split <;> exact g1_of_pd_idle hI hp rfl rfl rfl rfl rfl rfl rfl rfl
 
 theorem g1_tickCm {s s' : St} {i : Nat} (hI : G1 s) (h : tickCm s i = some s') : G1 s' := by
   unfold tickCm at h
   split at h
   · rename_i b hc
     cases h
-    exact g1_of_pd_idle hI (pd_idle_of_busy hI.a1 hc (by simp)) rfl rfl rfl rfl rfl rfl rfl rfl rfl rfl
+    exact g1_of_pd_idle hI (pd_idle_of_busy hI.a1 hc (by simp)) rfl rfl rfl rfl rfl rfl rfl rfl
   · rename_i b hc
     split at h
     · cases h; exact g1_commitFinish hI (pd_idle_of_busy hI.a1 hc (by simp)) _ _
@@ -90,18 +88,18 @@ theorem g1_init (cfg : Cfg) (hw : cfg.workers = true) (n r : Nat) : G1 (init cfg
   unfold init
   rw [if_pos hw]
   constructor <;> dsimp only <;>
-    simp [A1, A2, A3, A4, A5, A6l, A6f, A6c, A6k, A7, A8, A9, A10, LPc.exited, FPc.exited, CPc.exited,
+    simp [A1, A2, A3, A4, A5, A6l, A6f, A6c, A6k, A7, A8, A9, LPc.exited, FPc.exited, CPc.exited,
       KPc.exited, DPc.afterSd1, DPc.afterSd2, DPc.joined]
 
 set_option maxHeartbeats 800000 in
-theorem g1_step {cfg : Cfg} (hw : cfg.workers = true) {s s' : St} {a : Act} (hI : G1 s)
+theorem g1_step {cfg : Cfg} (hw : cfg.workers = true) {s s' : St} {a : Act} (hnp : a.isPanic = false) (hI : G1 s)
     (h : step cfg s a = some s') : G1 s' := by
   cases a with
   | tick t =>
     cases t
     · exact g1_tickL hI h
     · exact g1_tickF hI h
-    · exact g1_tickC hI h
+    · exact g1_tickC hI (tickCg_some h)
     · exact g1_tickK hI h
     · exact g1_tickD hI h
   | cmTick i => exact g1_tickCm hI h
@@ -111,7 +109,7 @@ theorem g1_step {cfg : Cfg} (hw : cfg.workers = true) {s s' : St} {a : Act} (hI 
     · rename_i hg
       have hp : s.pd = .idle := by simp at hg; exact hg.1.1
       split at h
-      · cases h; exact g1_of_pd_idle hI hp rfl rfl rfl rfl rfl rfl rfl rfl rfl rfl
+      · cases h; exact g1_of_pd_idle hI hp rfl rfl rfl rfl rfl rfl rfl rfl
       · cases h; exact g1_commitFinish hI hp _ _
     · cases h
   | drop =>
@@ -119,14 +117,14 @@ theorem g1_step {cfg : Cfg} (hw : cfg.workers = true) {s s' : St} {a : Act} (hI 
     split at h
     · rename_i hg
       cases h
-      have hg' : s.pd = .idle ∧ ∀ c ∈ s.cms, c = .idle := by simpa using hg
-      obtain ⟨a1, a2, a3, a4, a5, a6l, a6f, a6c, a6k, a7, a8, a9, a10⟩ := hI
+      have hg' : (s.pd = .idle ∧ ∀ c ∈ s.cms, c = .idle) ∧ s.iterHeld = false := by simpa using hg
+      obtain ⟨a1, a2, a3, a4, a5, a6l, a6f, a6c, a6k, a7, a8, a9⟩ := hI
       constructor <;> dsimp only <;>
         (first | assumption
                | (simp_all [A1, A2, A3, A4, A5, A8, A9, DPc.afterSd1, DPc.afterSd2, DPc.joined]; first | done | assumption))
     · cases h
   | fail t =>
-    obtain ⟨a1, a2, a3, a4, a5, a6l, a6f, a6c, a6k, a7, a8, a9, a10⟩ := hI
+    obtain ⟨a1, a2, a3, a4, a5, a6l, a6f, a6c, a6k, a7, a8, a9⟩ := hI
     cases t
     · simp only [step, hw, if_true] at h
       split at h <;> g1fin
@@ -142,9 +140,32 @@ theorem g1_step {cfg : Cfg} (hw : cfg.workers = true) {s s' : St} {a : Act} (hI 
   | apiFlush => simp [step, hw] at h
   | apiEnact => simp [step, hw] at h
   | apiClean => simp [step, hw] at h
+  | defer =>
+    obtain ⟨a1, a2, a3, a4, a5, a6l, a6f, a6c, a6k, a7, a8, a9⟩ := hI
+    simp only [step] at h
+    split at h
+    · split at h <;> g1fin
+    · cases h
+  | panic t => cases hnp
+  | iterHold | iterRelease | dropEnacted k | makeCycle =>
+    simp only [step] at h
+    split at h
+    · cases h; exact ⟨hI.a1, hI.a2, hI.a3, hI.a4, hI.a5, hI.a6l, hI.a6f, hI.a6c, hI.a6k, hI.a7, hI.a8, hI.a9⟩
+    · cases h
+  | lockTree | unlockTree =>
+    simp only [step] at h
+    cases h; exact ⟨hI.a1, hI.a2, hI.a3, hI.a4, hI.a5, hI.a6l, hI.a6f, hI.a6c, hI.a6k, hI.a7, hI.a8, hI.a9⟩
+  | grow k =>
+    simp only [step] at h
+    split at h
+    · cases h; exact ⟨hI.a1, hI.a2, hI.a3, hI.a4, hI.a5, hI.a6l, hI.a6f, hI.a6c, hI.a6k, hI.a7, hI.a8, hI.a9⟩
+    · split at h
+      · cases h; exact ⟨hI.a1, hI.a2, hI.a3, hI.a4, hI.a5, hI.a6l, hI.a6f, hI.a6c, hI.a6k, hI.a7, hI.a8, hI.a9⟩
+      · cases h
+    · cases h
 
 theorem g1_reachable {cfg : Cfg} (hw : cfg.workers = true) {n r : Nat} {s : St}
     (h : Reachable cfg n r s) : G1 s :=
-  reachable_induction G1 (g1_init cfg hw n r) (fun _ _ _ hI hs => g1_step hw hI hs) s h
+  reachable_induction G1 (g1_init cfg hw n r) (fun _ _ _ hnp hI hs => g1_step hw hnp hI hs) s h
 
 end Pdb.Conc.Pipe
